@@ -25,7 +25,13 @@ func init() { register("C12", runC12) }
 // C12: webhooks deactivate at max_tries consecutive failures, reset on success.
 //
 // input  (one line, ';' separated, the head is the configuration):
-//   "mt=<max_tries> mode=<s|p>;<op>;<op>;..."
+//   "mt=<max_tries> mode=<s|p> [up=<0..5>];<op>;<op>;..."
+//     up: url profile = which four concrete url STRINGS the ids 0..3 stand for (c12URLs): 0 plain /u<i>; 1 trailing
+//         slashes (/hook, /hook/, /hook//, /hook/x/); 2 leading/trailing blanks; 3 upper-case scheme/host, explicit port,
+//         fragment; 4 query string, fragment, percent-encoded characters; 5 600-character paths differing in the last
+//         character / a trailing slash.  Every operation addresses a webhook by exactly the string of its id; different
+//         strings are different webhooks; the POST must go to exactly the registered url (scripted client: the url
+//         argument verbatim; production client: Host + request-URI on the wire).
 //     mode s: scripted notification.WebhookTargetClient injected into the real WebhooksService
 //     mode p: the PRODUCTION client (transports/http/client) posting to an httptest server
 //   ops:  R<u>:<b|B|c|n>:<h>:<t>   POST /api/v1/webhook  url u (0..3), auth kind bearer ("bearer")/bearer ("BeArEr")/
@@ -46,6 +52,7 @@ func init() { register("C12", runC12) }
 const c12NU = 4
 
 type c12Post struct {
+	raw    string // what was addressed when it is none of the four urls
 	u      int
 	method string
 	ctype  string
@@ -69,6 +76,9 @@ func (p c12Post) String() string {
 	if ct == "application/json" {
 		ct = "json"
 	}
+	if p.u < 0 {
+		return fmt.Sprintf("u?%s/%s/%s/%s/%s", strings.ReplaceAll(c12Esc(p.raw), "/", "%2F"), c12Esc(p.method), c12Esc(ct), b, strings.Join(p.hdrs, "&"))
+	}
 	return fmt.Sprintf("u%d/%s/%s/%s/%s", p.u, c12Esc(p.method), c12Esc(ct), b, strings.Join(p.hdrs, "&"))
 }
 
@@ -76,7 +86,8 @@ func (p c12Post) String() string {
 type c12World struct {
 	mu       sync.Mutex
 	mode     string
-	base     string // url prefix; url of id i = base + "/u<i>"
+	urls     [c12NU]string // the exact url string of id i
+	wire     [c12NU]string // mode p: lower-case Host + " " + request-URI a POST to urls[i] must arrive with
 	outcomes [c12NU]byte
 	event    any
 	eventJS  []byte
@@ -84,7 +95,59 @@ type c12World struct {
 	srv      *httptest.Server
 }
 
-func (w *c12World) urlOf(i int) string { return fmt.Sprintf("%s/u%d", w.base, i) }
+func (w *c12World) urlOf(i int) string { return w.urls[i] }
+
+// c12URLs: the four url strings of a profile.  base = "http://host[:port]" (no trailing slash).
+func c12URLs(up int, mode string, base string) (u [c12NU]string, ok bool) {
+	hp := strings.TrimPrefix(base, "http://")
+	port := ""
+	if i := strings.LastIndexByte(hp, ':'); i >= 0 {
+		port = hp[i:]
+	}
+	switch up {
+	case 0:
+		for i := range u {
+			u[i] = fmt.Sprintf("%s/u%d", base, i)
+		}
+	case 1:
+		u = [c12NU]string{base + "/hook", base + "/hook/", base + "/hook//", base + "/hook/x/"}
+	case 2:
+		if mode == "s" {
+			u = [c12NU]string{base + "/sp", base + "/sp ", " " + base + "/sp", " " + base + "/sp/ "}
+		} else { // a url with a leading blank cannot be parsed by net/http: only deliverable shapes for the real client
+			u = [c12NU]string{base + "/sp", base + "/sp ", base + "/sp  ", base + "/sp /"}
+		}
+	case 3:
+		if mode == "s" {
+			u = [c12NU]string{"http://hook.test/c", "HTTP://hook.test/c", "http://HOOK.TEST:80/c", "http://hook.test/c#f"}
+		} else {
+			u = [c12NU]string{"http://" + hp + "/c", "HTTP://" + hp + "/C", "http://LOCALHOST" + port + "/c", "http://localhost" + port + "/c/"}
+		}
+	case 4:
+		u = [c12NU]string{base + "/q?x=1&y=2#frag", base + "/q?x=1", base + "/q%3Fx=1%26y=2", base + "/q%2Fa%20b+c"}
+	case 5:
+		l := strings.Repeat("a", 600)
+		u = [c12NU]string{base + "/" + l, base + "/" + l + "/", base + "/" + l[:599] + "b", base + "/l"}
+	default:
+		return u, false
+	}
+	return u, true
+}
+
+// c12Wire: Host and request-URI a POST to url must carry (RFC 3986/7230: no fragment, blanks percent-encoded; computed
+// without net/url on purpose).
+func c12Wire(u string) string {
+	i := strings.Index(u, "://")
+	rest := u[i+3:]
+	host, uri := rest, "/"
+	if j := strings.IndexByte(rest, '/'); j >= 0 {
+		host, uri = rest[:j], rest[j:]
+	}
+	if k := strings.IndexByte(uri, '#'); k >= 0 {
+		uri = uri[:k]
+	}
+	return strings.ToLower(host) + " " + strings.ReplaceAll(uri, " ", "%20")
+}
 func (w *c12World) idOf(u string) int {
 	for i := 0; i < c12NU; i++ {
 		if u == w.urlOf(i) {
@@ -104,7 +167,7 @@ func (w *c12World) Call(headers map[string]string, method string, u string, body
 	w.mu.Lock()
 	defer w.mu.Unlock()
 	id := w.idOf(u)
-	p := c12Post{u: id, method: method}
+	p := c12Post{u: id, method: method, raw: u}
 	var hs []string
 	for k, v := range headers {
 		if k == "Content-Type" {
@@ -149,12 +212,13 @@ func (w *c12World) ServeHTTP(rw http.ResponseWriter, r *http.Request) {
 	body, _ := io.ReadAll(r.Body)
 	w.mu.Lock()
 	id := -1
+	arrived := strings.ToLower(r.Host) + " " + r.RequestURI
 	for i := 0; i < c12NU; i++ {
-		if r.URL.Path == fmt.Sprintf("/u%d", i) {
+		if arrived == w.wire[i] {
 			id = i
 		}
 	}
-	p := c12Post{u: id, method: r.Method, ctype: r.Header.Get("Content-Type"), bodyOK: bytes.Equal(body, w.eventJS)}
+	p := c12Post{u: id, raw: arrived, method: r.Method, ctype: r.Header.Get("Content-Type"), bodyOK: bytes.Equal(body, w.eventJS)}
 	var hs []string
 	for k, vs := range r.Header {
 		if c12StdHeaders[k] {
@@ -319,7 +383,7 @@ func (r *c12Run) dumpDB() string {
 	return strings.Join(out, ",")
 }
 
-func c12ParseHead(h string) (mt int, mode string, err error) {
+func c12ParseHead(h string) (mt int, mode string, up int, err error) {
 	mode = "s"
 	for _, f := range strings.Fields(h) {
 		switch {
@@ -330,9 +394,17 @@ func c12ParseHead(h string) (mt int, mode string, err error) {
 			}
 		case strings.HasPrefix(f, "mode="):
 			mode = f[5:]
+		case strings.HasPrefix(f, "up="):
+			up, err = strconv.Atoi(f[3:])
+			if err != nil {
+				return
+			}
+		default:
+			err = fmt.Errorf("bad head %q", h)
+			return
 		}
 	}
-	if mt < 1 || (mode != "s" && mode != "p") {
+	if mt < 1 || up < 0 || up > 5 || (mode != "s" && mode != "p") {
 		err = fmt.Errorf("bad head %q", h)
 	}
 	return
@@ -341,15 +413,20 @@ func c12ParseHead(h string) (mt int, mode string, err error) {
 // c12Exec runs one case against the real stack and returns the observable.
 func c12Exec(c *Ctx, input string, seq int) (obs string) {
 	toks := strings.Split(input, ";")
-	mt, mode, err := c12ParseHead(toks[0])
+	mt, mode, up, err := c12ParseHead(toks[0])
 	if err != nil {
 		return "BAD-INPUT"
 	}
-	w := &c12World{mode: mode, base: "http://hook.test"}
+	w := &c12World{mode: mode}
+	base := "http://hook.test"
 	if mode == "p" {
 		w.srv = httptest.NewServer(w)
-		w.base = w.srv.URL
+		base = w.srv.URL
 		defer w.srv.Close()
+	}
+	w.urls, _ = c12URLs(up, mode, base)
+	for i := range w.urls {
+		w.wire[i] = c12Wire(w.urls[i])
 	}
 	// the SQLite file lives on tmpfs when there is one (every UPDATE is a committed transaction)
 	dir := ""
@@ -632,6 +709,17 @@ func runC12(c *Ctx) error {
 			}
 		}
 	}
+	// systematic: every url profile x both clients: the four urls side by side (they are four different webhooks),
+	// events, delete / query / re-register by exactly the string that was registered
+	for up := 1; up <= 5; up++ {
+		for _, mode := range []string{"s", "p"} {
+			for _, mt := range []int{1, 3} {
+				for _, first := range []string{"R0:b:0:1;R1:c:1:2;R2:n:0:0;R3:b:0:3", "R1:c:1:2", "R3:n:0:0;R2:b:0:1"} {
+					do(fmt.Sprintf("mt=%d mode=%s up=%d;%s;Nkkkk;Nskts;D1;Nkkkk;R1:b:0:1;R1:b:0:2;Nsskk;Z;D0;D0;Nkkkk;R2:c:1:1;D3;Nssss;Z", mt, mode, up, first), "systematic-url")
+				}
+			}
+		}
+	}
 	n := c.Pick(500, 6000)
 	for i := 0; i < n; i++ {
 		mt := 1 + c.Rng.Intn(5)
@@ -639,10 +727,14 @@ func runC12(c *Ctx) error {
 		if c.Rng.Intn(4) == 0 {
 			mode = "p"
 		}
+		upTok := ""
+		if up := c.Rng.Intn(6); up > 0 {
+			upTok = fmt.Sprintf(" up=%d", up)
+		}
 		l := 4 + c.Rng.Intn(c.Pick(22, 40))
 		ops := c12GenOps(c, l, mt)
 		ops = append(ops, "Z")
-		do(fmt.Sprintf("mt=%d mode=%s;", mt, mode)+strings.Join(ops, ";"), "random:"+mode)
+		do(fmt.Sprintf("mt=%d mode=%s%s;", mt, mode, upTok)+strings.Join(ops, ";"), "random:"+mode)
 	}
 	return nil
 }
